@@ -116,4 +116,103 @@ theorem Comp.dqm (parse : Bytes → Option (Bool × H)) (parseVars : Bytes → O
     simp only [hfin]
     exact hre
 
+/-! ## containers located from their END (zip / npz: the end-of-central-directory record) -/
+
+/-- **the zip contract.**  `zipfile.ZipFile` finds the archive through the end-of-central-directory
+    record, which is the last thing in the data apart from `tail` further bytes (an archive
+    comment; `0` for everything dimod writes).  The complete data opens to `a`; a proper prefix
+    opens — with the same members — exactly when only bytes after that record were lost, and
+    otherwise does not open at all.  This is the only trusted statement about the container; it
+    is validated by the every-prefix sweep of C10. -/
+structure ZipContract (openZip : Bytes → Option β) (body : Bytes) (a : β) (tail : Nat) : Prop where
+  full : openZip body = some a
+  keep : ∀ j, j < body.length → body.length ≤ j + tail → openZip (body.take j) = some a
+  lose : ∀ j, j + tail < body.length → openZip (body.take j) = none
+
+theorem ContainerContract.toZip {openZip : Bytes → Option β} {body : Bytes} {a : β} (h : ContainerContract openZip body a) :
+    ZipContract openZip body a 0 :=
+  ⟨h.full, fun j hj hle => by omega, fun j hj => h.cut j (by omega)⟩
+
+/-- header + container read to the end of the file, cut anywhere -/
+theorem containerLoad_trunc (pre text body : Bytes) (maj min : UInt8) (parse : Bytes → Option H) (h : H)
+    (verOk : List Nat → Bool) (openBody : Bytes → Option β) (a : β) (tail : Nat)
+    (hh : HeaderOK parse text h) (hver : verOk [maj.toNat, min.toNat] = true) (hc : ZipContract openBody body a tail)
+    (htail : tail < body.length) (k : Nat) (hk : k < (makeHeader pre maj min text ++ body).length) :
+    (∃ e, containerLoad pre parse verOk openBody ((makeHeader pre maj min text ++ body).take k) = .err e) ∨
+    (containerLoad pre parse verOk openBody ((makeHeader pre maj min text ++ body).take k) = .ok (h, a) ∧
+      (makeHeader pre maj min text ++ body).length ≤ k + tail) := by
+  have hcomp := Comp.header pre text maj min parse h hh.1 hh.2.1 hh.2.2
+  unfold containerLoad
+  by_cases hlt : k < (makeHeader pre maj min text).length
+  · left
+    rw [take_append_lt (Nat.le_of_lt hlt)]
+    rcases hcomp.cut k hlt with ⟨e, he⟩ | ⟨_, hok⟩
+    · exact ⟨e, by rw [he]⟩
+    · rw [hok]
+      have := hc.lose 0 (by omega)
+      simp only [List.take_zero] at this
+      exact ⟨.zip, by simp [hver, this]⟩
+  · have hge : (makeHeader pre maj min text).length ≤ k := Nat.le_of_not_lt hlt
+    rw [take_append_ge hge, hcomp.full]
+    have hk2 : k - (makeHeader pre maj min text).length < body.length := by simp at hk; omega
+    by_cases hl : (k - (makeHeader pre maj min text).length) + tail < body.length
+    · left; exact ⟨.zip, by simp [hver, hc.lose _ hl]⟩
+    · right
+      refine ⟨by simp [hver, hc.keep _ hk2 (by omega)], ?_⟩
+      simp only [List.length_append]; omega
+
+/-- **DQM files under the zip contract for the npz blob** -/
+theorem Comp.dqmZ (parse : Bytes → Option (Bool × H)) (parseVars : Bytes → Option (List J)) (npLoad : Bytes → Option D)
+    (nvarsOf : D → Nat) (hdrText npz varsText : Bytes) (labelled : Bool) (h : H) (d : D) (labels : List J) (tail : Nat)
+    (hh : HeaderOK parse hdrText (labelled, h)) (hz : ZipContract npLoad npz d tail) (hsz : npz.length < 256 ^ 4)
+    (hv : labelled = true → VarsOK parseVars varsText labels ∧ labels.length = nvarsOf d) :
+    ∃ pad, (pad < 64 ∨ pad = tail) ∧ Comp (dqmDecode parse parseVars npLoad nvarsOf) (dqmEncode hdrText labelled npz varsText)
+      (h, d, if labelled then some labels else none) pad := by
+  rw [dqmEncode_eq]
+  unfold dqmDecode
+  have hver : (!tupleLt [(1 : UInt8).toNat, (1 : UInt8).toNat] [2, 0]) = false := by decide
+  suffices hbody : ∃ pad, (pad < 64 ∨ pad = tail) ∧ Comp (dqmBody parseVars npLoad nvarsOf labelled h)
+      (magBIAS ++ (toLE 4 npz.length ++ (npz ++ (if labelled then sectionDumps magVARS nlb4 varsText else []))))
+      (h, d, if labelled then some labels else none) pad by
+    obtain ⟨pad, hp, hb⟩ := hbody
+    refine ⟨pad, hp, ?_⟩
+    refine Comp.bind_padded (Comp.header dqmPrefix hdrText 1 1 parse (labelled, h) hh.1 hh.2.1 hh.2.2) ?_ ?_
+    · simp only [hver, Bool.false_eq_true, if_false]
+      exact EofFails.bind _ (EofFails.expect _ magBIAS_ne)
+    · simp only [hver, Bool.false_eq_true, if_false]
+      exact hb
+  unfold dqmBody
+  cases labelled with
+  | true =>
+    obtain ⟨hvars, hlen⟩ := hv rfl
+    refine ⟨sectionPad magVARS nlb4 varsText, .inl (padLen_lt _), ?_⟩
+    refine Comp.bind_strict (Comp.expect magBIAS) ?_
+    refine Comp.bind_strict (Comp.readLen 4 npz.length hsz (by decide)) ?_
+    refine Comp.bind_lenient (fun rest => readN_full npz rest) (NoUB.readN _) ?_ ?_
+    · intro blob
+      unfold dqmFinish
+      cases npLoad blob with
+      | none => exact ⟨.zip, rfl⟩
+      | some d' => simp only [if_true]; exact EofFails.bind _ (EofFails.section _ _ _ magVARS_ne)
+    · unfold dqmFinish
+      simp only [hz.full, if_true]
+      refine Comp.bind_noread (Comp.vars parseVars varsText labels hvars.1 hvars.2.1 hvars.2.2) ?_
+      intro s
+      simp [hlen, run]
+  | false =>
+    refine ⟨tail, .inr rfl, ?_⟩
+    simp only [Bool.false_eq_true, if_false, List.append_nil]
+    refine Comp.bind_strict (Comp.expect magBIAS) ?_
+    have hfin : ∀ blob, dqmFinish parseVars npLoad nvarsOf false h blob =
+        Prog.ofRes (match npLoad blob with | none => .err .zip | some d' => .ok (h, d', none)) := by
+      intro blob; unfold dqmFinish; cases npLoad blob <;> rfl
+    have hre := Comp.readLoads npz (fun blob => match npLoad blob with | none => Res.err FErr.zip | some d' => Res.ok (h, d', (none : Option (List J))))
+      (h, d, none) tail (by simp [hz.full]) (fun j hj => by
+        by_cases hl : j + tail < npz.length
+        · exact .inl ⟨.zip, by simp [hz.lose j hl]⟩
+        · exact .inr ⟨by omega, by simp [hz.keep j hj (by omega)]⟩)
+    refine Comp.bind_strict (Comp.readLen 4 npz.length hsz (by decide)) ?_
+    simp only [hfin]
+    exact hre
+
 end FileFmt
